@@ -3,16 +3,17 @@ From Coq Require Import ZArith List Bool Lia.
 Import ListNotations.
 Require Import Grist.Model.MetaCascade Grist.Proofs.MetaCascade_base Grist.Proofs.MetaCascade_inv
   Grist.Proofs.MetaCascade_rm Grist.Proofs.MetaCascade_rm2 Grist.Proofs.MetaCascade_rm3
-  Grist.Proofs.MetaCascade_rm4.
+  Grist.Proofs.MetaCascade_rm4 Grist.Proofs.MetaCascade_conv.
 Open Scope Z_scope.
 
 Lemma remove_tables_inv : forall trefs m m', Inv m -> remove_tables trefs m = Ok m' -> Inv m'.
 Proof.
-  intros trefs m m' HI H. unfold remove_tables in H.
-  destruct (negb (all_in trefs (tids m))); [discriminate|].
-  set (tabs := trefs ++ map t_id (filter (fun t => mem (t_src t) trefs) (m_tables m))) in *.
+  intros trefs m0 m' HI0 H. unfold remove_tables in H.
+  destruct (negb (all_in trefs (tids m0))); [discriminate|].
+  set (tabs := trefs ++ map t_id (filter (fun t => mem (t_src t) trefs) (m_tables m0))) in *.
   destruct (negb (nodupb tabs)); [discriminate|].
-  destruct (existsb _ (m_columns m)); [discriminate|].
+  set (m := convert_refs tabs m0) in *.
+  assert (HI : Inv m) by (apply convert_refs_inv; exact HI0).
   set (secs := map s_id (filter (fun s => mem (s_table s) tabs) (m_sections m))) in *.
   set (m1 := remove_sections_raw secs m) in *.
   (* after the sections are gone *)
